@@ -13,6 +13,8 @@
     pseq … continued:   one resolver wired as in run.go answers the queries of these
         clients in order → seq=<ctx:path:profile>,…  (every query is resolved under the profile of
         ITS tuple, whatever was asked before)
+    pwire <src/dst/mac>,… <entry>*   the tuples on real sockets through the real UDP listener, all in flight together
+        → seq=<profile>,…
     purl <id>        the DoH side for profile <id>: cache context, request path, ResolveInfo.Profile
         → ctx=<hex> path=<hex> profile=<hex>     (ids of URL-unreserved characters only; else "unsupported")
 -/
@@ -91,6 +93,22 @@ def stepProf (toks : List String) : Option String :=
         let (url, profile) := getProfileURL ps c
         let (ctx, path) := dohCtxAndPath url
         s!"{toHexOrDash ctx}:{toHexOrDash path}:{toHexOrDash profile}"
+      some s!"seq={joinOrDash outs}"
+    | _, _ => some "bad-op"
+  | "pwire" :: tuples :: entries =>
+    -- the same clients on real sockets (see harness runPwire): only the profile is observed
+    let parseT (t : String) : Option Client :=
+      match t.splitOn "/" with
+      | [a, b, m] => do
+        let src ← parseOptIP a
+        let dst ← parseOptIP b
+        let mac ← ofHex m
+        pure { src := src, dst := dst, mac := mac }
+      | _ => none
+    match (tuples.splitOn ",").mapM parseT, parseEntries entries with
+    | some cs, some es =>
+      let ps := es.foldl (fun acc e => setStore acc e.1 e.2) []
+      let outs := cs.map fun c => toHexOrDash (getProfileURL ps c).2
       some s!"seq={joinOrDash outs}"
     | _, _ => some "bad-op"
   | "prof" :: src :: dst :: mac :: entries =>
